@@ -1,4 +1,9 @@
-"""C11: a silent or absent slave cannot hang the bus (Wishbone part: G-mode with faulty slaves)."""
+"""C11: a silent or absent slave cannot hang the bus (G-mode with faulty slaves: Wishbone, AXI-Lite, SoC error
+counter; AXI4 (axi_full.py) in a child process beside them)."""
+import os
+import traceback
+
+from .. import gcheck
 from ..gcheck import GFamily, run_batches
 from ..families import wbic as wb
 from . import wbicfam
@@ -15,20 +20,130 @@ AXL_CM["Recovers"] = "BoundedService"
 AXL = GFamily("axilto/AxiLiteTimeoutGraph", "axilto/AxiLiteTimeoutTrace", "harness.families.axilto:make", fmt="hash",
               hint=axilto.Hint(), clause_map=AXL_CM,
               describe=lambda s: "axi_lite.AXILiteInterconnectShared(1x1, timeout=%d, %s)" % (s["t"], "write" if s["dir"] == "w" else "read"))
+# AXI4 (full): AXIInterconnectShared with AXITimeout, judged by specs/axilto/AxiTimeoutContract.tla
+from ..families import axito
+AXI_INVS = ["OffersTerminatedInTime", "NoDisturbance", "ErrorIndication", "ErrorPulse", "ResponseOnlyToCompleteRequest",
+            "SlaveResponsePassed", "AcceptedRequestsAnsweredInTime", "ResponseHold"]
+AXI_CM = {k: k for k in AXI_INVS + ["ForcedResponseId"]}
+AXI_CM["Recovers"] = "BoundedService"
+AXI = GFamily("axilto/AxiTimeoutGraph", "axilto/AxiTimeoutTrace", "harness.families.axito:make", fmt="hash",
+              hint=axito.Hint(), clause_map=AXI_CM, describe=axito.describe)
+AXI_NOTES = os.path.join(os.path.dirname(os.path.dirname(os.path.dirname(os.path.abspath(__file__)))), "notes",
+                         "C11b_findings.json")
+
+
+def axi_witnesses(cfg, edges):
+    """counts, over the reachable edges of one DUT, of the situations the AXI4 time-out contract is about"""
+    wr = cfg["dir"] == "w"
+    w = dict.fromkeys(["error_pulse", "forced_response_accepted", "forced_response_stalled", "slave_response_accepted",
+                       "forced_for_unmapped", "beat_without_last", "two_beat_burst_forced", "id1_request_forced"], 0)
+    for iv, o in edges:
+        mc, sc = iv
+        av, tgt, ln, aid, wv, wl, rr = mc & 1, (mc >> 1) & 3, (mc >> 3) & 1, (mc >> 4) & 1, (mc >> 5) & 1, (mc >> 6) & 1, mc >> 7
+        aready, wready, rvalid, rcode, rid, rlast, err = o[:7]
+        srv = (sc >> 2) & 1
+        w["error_pulse"] += err
+        if rvalid and not srv:
+            w["forced_response_accepted" if rr else "forced_response_stalled"] += 1
+        if rvalid and srv and rr and rcode == 1:
+            w["slave_response_accepted"] += 1
+            w["beat_without_last"] += bool(not wr and not rlast)
+        # a forced acceptance of the address: nobody on the slave side took it
+        if av and aready and not (o[7] and sc & 1):
+            w["forced_for_unmapped"] += tgt == 2
+            w["two_beat_burst_forced"] += ln
+            w["id1_request_forced"] += aid
+        if wr and wv and wready and not wl:
+            w["beat_without_last"] += 1
+    return w
+
+
+def _axi_lane(conn, prop, tier, seed, findings):
+    from .axilicfam import _HarvestLoop
+    from ..report import Report, MachineryError
+    try:
+        from .. import py312_tracer
+        py312_tracer.install()
+        gcheck.GraphLoop = _HarvestLoop
+        rep = Report(prop, "%s-axi4" % tier, seed)
+        rep.findings = findings
+        log = lambda msg: print("[axi4] %s" % msg, flush=True)      # noqa
+        main, demo = axito.configs(tier)
+        # the faulty slave falls silent before accepting / answers what it accepted: every clause but the id
+        # of the forced response (listed finding, shown by the demonstrations with all clauses below)
+        stats = run_batches(AXI, rep, [main], AXI_INVS, ["Recovers"], log=log, spec_budget=0, total_budget=0)
+        nmain = len(stats)
+        fid = [x for x in demo if x[0].get("axi_forced_id")]
+        run_batches(AXI, rep, [[x] for x in fid], AXI_INVS + ["ForcedResponseId"], ["Recovers"], log=log,
+                    spec_budget=0, total_budget=0)
+        run_batches(AXI, rep, [[x] for x in demo if not x[0].get("axi_forced_id")], AXI_INVS, ["Recovers"], log=log,
+                    spec_budget=0, total_budget=0)
+        per = []
+        n = 0
+        for spec, cfg, ev in _HarvestLoop.harvested:
+            w = axi_witnesses(cfg, ev)
+            per.append({"dut": axito.describe(spec), "witnesses": w})
+            if spec.get("nofollowup"):
+                continue
+            n += 1
+            zero = [k for k, v in w.items() if not v]
+            if zero:
+                raise MachineryError("vacuous AXI4 time-out run: %s never saw %s" % (axito.describe(spec), ", ".join(zero)))
+        if not rep.violations and n != nmain:
+            raise MachineryError("AXI4 time-out run: %d of %d main DUTs harvested" % (n, nmain))
+        rep.add(axi4_duts_explored=nmain, axi4_clauses=AXI_INVS + ["ForcedResponseId", "Recovers"], axi4_per_dut=stats,
+                axi4_witnesses=per)
+        conn.send({"cov": rep.cov, "violations": rep.violations, "known_hit": rep.known_hit, "notes": rep.notes})
+    except MachineryError as ex:
+        conn.send({"error": "[axi4] %s" % ex})
+    except Exception:
+        conn.send({"error": "[axi4] %s" % traceback.format_exc()[-3000:]})
+    finally:
+        conn.close()
+
+
 ERRCNT = GFamily("errcnt/ErrCounterGraph", None, "harness.families.errcnt:make", fmt="hash",
                  describe=lambda s: "SoCController.bus_errors(%s)" % ("seeded 4 below saturation" if s["seeded"] else "from reset"))
 
 
 def run(prop, report, tier, seed):
+    from .axilicfam import start_lane, join_lane, notes_findings
+    report.findings = list(report.findings) + notes_findings(report.prop, AXI_NOTES)
+    lane = None
+    if os.environ.get("VERIF_NO_AXI4"):          # development aid (timing of the other parts alone); the evidence says so
+        report.note("AXI4 batches skipped by VERIF_NO_AXI4")
+    else:
+        lane = start_lane(_axi_lane, (prop, tier, seed, report.findings))
+    try:
+        _run_rest(prop, report, tier, seed)
+    except BaseException:
+        if lane:
+            lane[0].terminate()
+        raise
+    if lane:
+        join_lane(report, lane, "axi4")
+    report.cov["exhaustive"] = True
+
+
+def _run_rest(prop, report, tier, seed):
+    if os.environ.get("VERIF_ONLY_AXI4"):      # development aid (mutation tests of axi_full.py); the evidence says so
+        report.note("restricted to the AXI4 batches by VERIF_ONLY_AXI4")
+        return
     cfgs = wb.configs(tier, "C11")
     report.assume("slaves may stay silent forever or answer at any time incl. the cycle the timer expires; "
                   "time-outs T=1..4 (the default 10^6 is the same netlist with a wider counter)")
+    report.assume("AXI4 (axi_full.py): one master, one slave region and an unmapped region, at most one burst of 1-2 beats "
+                  "outstanding, ids from a 2-value set; main configurations: write data offered with its address and "
+                  "without gaps, a slave that let the time-out expire stays silent for that request, takes a write "
+                  "burst's address and first beat together, and answers what it has accepted within the time-out")
     stats = run_batches(wbicfam.FAMILY, report, [cfgs[i:i + 5] for i in range(0, len(cfgs), 5)], WB_INVS, WB_PROPS,
                         spec_budget=300000)
     report.add(duts_explored=len(stats), clauses=WB_INVS + WB_PROPS, per_dut=stats)
     # AXI-Lite: shared interconnect with AXILiteTimeout and a faulty slave / unmapped address
     acfgs = axilto.configs(tier)
-    astats = run_batches(AXL, report, [acfgs], AXL_INVS, ["Recovers"], spec_budget=300000)
+    # the demonstrations of listed findings run one by one (a batch is re-run without a DUT that hit a finding)
+    abatches = [[c for c in acfgs if not c[0].get("nofollowup")]] + [[c] for c in acfgs if c[0].get("nofollowup")]
+    astats = run_batches(AXL, report, abatches, AXL_INVS, ["Recovers"], spec_budget=4000)
     report.add(axilite_duts_explored=len(astats), axilite_clauses=AXL_INVS + ["Recovers"], per_dut=astats)
     # SoC bus-error counter: counts once per pulse, saturates (seeded near 2^32-1)
     from ..graphloop import GraphLoop
